@@ -8,7 +8,7 @@ template <size_t R0, size_t R1, class A, class B>
 void ob_c07_bin2(const A& a, const B& b, int tag)
 {
     {
-        auto v = nm::unwrap(view::subtract(a, b));
+        auto v = nm::unwrap(view::subtract(raw(a), raw(b)));
         auto shp = nm::shape(v);
         OBLIGE("C07.binary.result_has_the_broadcast_shape|C06.binary.result_has_the_broadcast_shape", (size_t)nm::len(shp) == 2 && (size_t)nm::at(shp, meta::ct_v<0>) == R0 && (size_t)nm::at(shp, meta::ct_v<1>) == R1, R0, R1, tag);
         for_<R0>([&](auto I){ for_<R1>([&](auto J){
@@ -16,7 +16,7 @@ void ob_c07_bin2(const A& a, const B& b, int tag)
         }); });
     }
     {
-        auto v = nm::unwrap(view::less(a, b));
+        auto v = nm::unwrap(view::less(raw(a), raw(b)));
         for_<R0>([&](auto I){ for_<R1>([&](auto J){
             OBLIGE("C07.comparison.element", (bool)v(I.value, J.value) == (rd2(a, I.value, J.value) < rd2(b, I.value, J.value)), R0*10+R1, tag, I.value, J.value);
         }); });
@@ -26,7 +26,7 @@ void ob_c07_bin2(const A& a, const B& b, int tag)
 template <size_t R0, size_t R1, size_t R2, class A, class B>
 void ob_c07_bin3(const A& a, const B& b, int tag)
 {
-    auto v = nm::unwrap(view::subtract(a, b));
+    auto v = nm::unwrap(view::subtract(raw(a), raw(b)));
     auto shp = nm::shape(v);
     OBLIGE("C07.binary.result_has_the_broadcast_shape|C06.binary.result_has_the_broadcast_shape", (size_t)nm::len(shp) == 3 && (size_t)nm::at(shp, meta::ct_v<0>) == R0 && (size_t)nm::at(shp, meta::ct_v<1>) == R1 && (size_t)nm::at(shp, meta::ct_v<2>) == R2, R0*100+R1*10+R2, tag);
     for_<R0>([&](auto I){ for_<R1>([&](auto J){ for_<R2>([&](auto K){
@@ -35,16 +35,16 @@ void ob_c07_bin3(const A& a, const B& b, int tag)
 }
 // ---- unary
 template <size_t R0, size_t R1>
-void ob_c07_unary(const carr<R0,R1>& a)
-{
+void ob_c07_unary(const ARR<R0,R1>& a)
+{ PIN(a, R0,R1);
     auto v = nm::unwrap(view::negative(a));
     auto shp = nm::shape(v);
     OBLIGE("C07.unary.shape", (size_t)nm::len(shp) == 2 && (size_t)nm::at(shp, meta::ct_v<0>) == R0 && (size_t)nm::at(shp, meta::ct_v<1>) == R1, R0, R1);
     for_<R0>([&](auto I){ for_<R1>([&](auto J){ OBLIGE("C07.unary.element", (long)v(I.value, J.value) == -a(I.value, J.value), R0*10+R1, I.value, J.value); }); });
 }
 // ---- a view as operand (transpose of a (3,2) array is (2,3)) and a chained ufunc
-void ob_c07_view_operand(const carr<3,2>& a, const carr<3>& b)
-{
+void ob_c07_view_operand(const ARR<3,2>& a, const ARR<3>& b)
+{ PIN(a, 3,2); PIN(b, 3);
     auto t = nm::unwrap(view::transpose(a));
     auto v = nm::unwrap(view::subtract(t, b));
     for_<2>([&](auto I){ for_<3>([&](auto J){ OBLIGE("C07.view_operand.element", (long)v(I.value, J.value) == a(J.value, I.value) - b(J.value), I.value, J.value); }); });
@@ -53,8 +53,8 @@ void ob_c07_view_operand(const carr<3,2>& a, const carr<3>& b)
 }
 // ---- outer variant: shape(a)+shape(b), element (i,j) = op(a[i], b[j])
 template <size_t A0, size_t A1, size_t B0>
-void ob_c07_outer(const carr<A0,A1>& a, const carr<B0>& b)
-{
+void ob_c07_outer(const ARR<A0,A1>& a, const ARR<B0>& b)
+{ PIN(a, A0,A1); PIN(b, B0);
     auto v = nm::unwrap(view::outer_subtract(a, b));
     auto shp = nm::shape(v);
     OBLIGE("C07.outer.shape_is_the_concatenation", (size_t)nm::len(shp) == 3 && (size_t)nm::at(shp, meta::ct_v<0>) == A0 && (size_t)nm::at(shp, meta::ct_v<1>) == A1 && (size_t)nm::at(shp, meta::ct_v<2>) == B0, A0, A1, B0);
@@ -63,28 +63,28 @@ void ob_c07_outer(const carr<A0,A1>& a, const carr<B0>& b)
     }); }); });
 }
 // instantiations: one function per operand-shape combination
-void ob_c07_bin2_1(const carr<2,3>& a, const carr<3>& b)   { ob_c07_bin2<2,3>(a, b, 1); }
-void ob_c07_bin2_2(const carr<3>& a, const carr<2,3>& b)   { ob_c07_bin2<2,3>(a, b, 2); }   // rank extension on the LEFT operand
-void ob_c07_bin2_3(const carr<2,1>& a, const carr<1,3>& b) { ob_c07_bin2<2,3>(a, b, 3); }
-void ob_c07_bin2_4(const carr<1,3>& a, const carr<2,1>& b) { ob_c07_bin2<2,3>(a, b, 4); }
-void ob_c07_bin2_5(const carr<2,2>& a, long b)             { ob_c07_bin2<2,2>(a, b, 5); }   // scalar operand right
-void ob_c07_bin2_6(long a, const carr<2,2>& b)             { ob_c07_bin2<2,2>(a, b, 6); }   // scalar operand left
-void ob_c07_bin2_7(const carr<3,1>& a, const carr<3>& b)   { ob_c07_bin2<3,3>(a, b, 7); }
-void ob_c07_bin2_8(const carr<1,1>& a, const carr<2,2>& b) { ob_c07_bin2<2,2>(a, b, 8); }
-void ob_c07_bin3_1(const carr<2,1,2>& a, const carr<3,1>& b) { ob_c07_bin3<2,3,2>(a, b, 1); }   // size-1 middle axis
+void ob_c07_bin2_1(const ARR<2,3>& a, const ARR<3>& b) { PIN(a, 2,3); PIN(b, 3); ob_c07_bin2<2,3>(OP<2,3>(a), OP<3>(b), 1); }
+void ob_c07_bin2_2(const ARR<3>& a, const ARR<2,3>& b) { PIN(a, 3); PIN(b, 2,3); ob_c07_bin2<2,3>(OP<3>(a), OP<2,3>(b), 2); }   // rank extension on the LEFT operand
+void ob_c07_bin2_3(const ARR<2,1>& a, const ARR<1,3>& b) { PIN(a, 2,1); PIN(b, 1,3); ob_c07_bin2<2,3>(OP<2,1>(a), OP<1,3>(b), 3); }
+void ob_c07_bin2_4(const ARR<1,3>& a, const ARR<2,1>& b) { PIN(a, 1,3); PIN(b, 2,1); ob_c07_bin2<2,3>(OP<1,3>(a), OP<2,1>(b), 4); }
+void ob_c07_bin2_5(const ARR<2,2>& a, long b) { PIN(a, 2,2); ob_c07_bin2<2,2>(OP<2,2>(a), b, 5); }   // scalar operand right
+void ob_c07_bin2_6(long a, const ARR<2,2>& b) { PIN(b, 2,2); ob_c07_bin2<2,2>(a, OP<2,2>(b), 6); }   // scalar operand left
+void ob_c07_bin2_7(const ARR<3,1>& a, const ARR<3>& b) { PIN(a, 3,1); PIN(b, 3); ob_c07_bin2<3,3>(OP<3,1>(a), OP<3>(b), 7); }
+void ob_c07_bin2_8(const ARR<1,1>& a, const ARR<2,2>& b) { PIN(a, 1,1); PIN(b, 2,2); ob_c07_bin2<2,2>(OP<1,1>(a), OP<2,2>(b), 8); }
+void ob_c07_bin3_1(const ARR<2,1,2>& a, const ARR<3,1>& b) { PIN(a, 2,1,2); PIN(b, 3,1); ob_c07_bin3<2,3,2>(OP<2,1,2>(a), OP<3,1>(b), 1); }   // size-1 middle axis
 #ifdef VERIF_THOROUGH
 // needs the last source-level pipeline (25 s more)
-void ob_c07_bin3_2(const carr<2>& a, const carr<2,3,2>& b)   { ob_c07_bin3<2,3,2>(a, b, 2); }
+void ob_c07_bin3_2(const ARR<2>& a, const ARR<2,3,2>& b) { PIN(a, 2); PIN(b, 2,3,2); ob_c07_bin3<2,3,2>(OP<2>(a), OP<2,3,2>(b), 2); }
 #endif
-void ob_c07_bin3_3(const carr<2,1,1>& a, const carr<1,2,3>& b) { ob_c07_bin3<2,2,3>(a, b, 3); }
-void ob_c07_bin3_4(const carr<1,2,2>& a, const carr<2,1,2>& b) { ob_c07_bin3<2,2,2>(a, b, 4); }
-template void ob_c07_unary<2,3>(const carr<2,3>&);
-template void ob_c07_unary<1,2>(const carr<1,2>&);
-template void ob_c07_outer<2,2,3>(const carr<2,2>&, const carr<3>&);
-template void ob_c07_outer<1,3,2>(const carr<1,3>&, const carr<2>&);
+void ob_c07_bin3_3(const ARR<2,1,1>& a, const ARR<1,2,3>& b) { PIN(a, 2,1,1); PIN(b, 1,2,3); ob_c07_bin3<2,2,3>(OP<2,1,1>(a), OP<1,2,3>(b), 3); }
+void ob_c07_bin3_4(const ARR<1,2,2>& a, const ARR<2,1,2>& b) { PIN(a, 1,2,2); PIN(b, 2,1,2); ob_c07_bin3<2,2,2>(OP<1,2,2>(a), OP<2,1,2>(b), 4); }
+template void ob_c07_unary<2,3>(const ARR<2,3>&);
+template void ob_c07_unary<1,2>(const ARR<1,2>&);
+template void ob_c07_outer<2,2,3>(const ARR<2,2>&, const ARR<3>&);
+template void ob_c07_outer<1,3,2>(const ARR<1,3>&, const ARR<2>&);
 
-void ob_c07b_negctl(const carr<2,1>& a, const carr<1,3>& b)
-{
+void ob_c07b_negctl(const ARR<2,1>& a, const ARR<1,3>& b)
+{ PIN(a, 2,1); PIN(b, 1,3);
     auto v = nm::unwrap(view::subtract(a, b));
     NEGCTL("C07.NEG.operands_swapped", (long)v(1, 2) == b(0, 2) - a(1, 0), 0);
 }
